@@ -58,7 +58,7 @@ pub fn run(ctx: &Ctx) {
          with an independent tokenizer, every key generated so far (and every initial key) is present, its private key unlocks under its own password (reference unlock) to the key whose public \
          key is listed; at the end encrypt/decrypt between pairs of names with the real binary. distinct_nontrivial counts distinct (initial state, step index) observations",
     );
-    let histories = ctx.tier.pick(18, 90);
+    let histories = ctx.tier.pick(24, 112);
     par_for(histories, crate::util::ncpu(), |h| {
         let mut rng = Rng::fork(ctx.seed, &format!("C14-{}", h));
         let wd = WorkDir::new("c14");
@@ -81,6 +81,28 @@ pub fn run(ctx: &Ctx) {
         states.push(("keyring larger than 8 KiB (110 contacts)", Some(big9k), vec![&init0]));
         states.push(("keyring with ~10 KiB of trailing comments", Some(comments), vec![&init0]));
         states.push(("keyring larger than 64 KiB (about a thousand contacts)", Some(big70k), vec![&init0]));
+        // files whose next generation straddles a power-of-two size (padding is commentary)
+        let pad_to = |target: usize, rng: &mut Rng| -> String {
+            let head = format!("{}\n", init0.entry(true));
+            let line = "# commentary ......................................................................................\n";
+            let want = target - 40 - rng.range(0, 200);
+            let mut t = String::with_capacity(target + 1000);
+            t.push_str(&head);
+            while t.len() + line.len() <= want {
+                t.push_str(line);
+            }
+            while t.len() < want {
+                t.push_str("#\n");
+            }
+            t
+        };
+        states.push(("keyring padded to just under 128 KiB", Some(pad_to(1 << 17, &mut rng)), vec![&init0]));
+        states.push(("keyring padded to just under 1 MiB", Some(pad_to(1 << 20, &mut rng)), vec![&init0]));
+        states.push(("keyring padded to just under 2 MiB", Some(pad_to(1 << 21, &mut rng)), vec![&init0]));
+        if ctx.tier == crate::ctx::Tier::Thorough {
+            states.push(("keyring padded to just under 4 MiB", Some(pad_to(1 << 22, &mut rng)), vec![&init0]));
+            states.push(("keyring padded to just under 16 MiB", Some(pad_to(1 << 24, &mut rng)), vec![&init0]));
+        }
         let (sname, init, init_ids) = &states[h % states.len()];
         let f = wd.file("keyring.txt");
         if let Some(text) = init {
@@ -88,6 +110,7 @@ pub fn run(ctx: &Ctx) {
         }
         // thorough: one history in five is long (45 generations cross the 8 KiB mark from an empty file)
         let nsteps = if ctx.tier == crate::ctx::Tier::Thorough && h % 5 == 4 { 45 } else { 1 + (h / states.len()) % 6 };
+        let nsteps = if sname.contains("padded") { nsteps.max(2) } else { nsteps };
         let pw_pool = ["", "simple", "p\u{e4}ss w\u{f6}rd \u{2713}", "a much longer password with spaces and symbols !@#$%^&*()", "simple"];
         let steps: Vec<Step> = (0..nsteps)
             .map(|i| {
@@ -235,6 +258,9 @@ pub fn run(ctx: &Ctx) {
                 ok_history = false;
                 break;
             }
+            if before.as_ref().map(|b| b.len().next_power_of_two() != after.len().next_power_of_two() && b.len() > 100_000).unwrap_or(false) {
+                ctx.seen("step that carries the file across a power-of-two size above 100 kB");
+            }
             ctx.seen(&format!("step into {}: prefix kept, parses, {} keys usable", state_key, expect.len().min(7)));
             ctx.distinct(&format!("{}|step{}|of{}", sname, si, nsteps));
             if h == 3 && si == nsteps - 1 {
@@ -286,6 +312,7 @@ pub fn run(ctx: &Ctx) {
     });
     crate::ttylanes::c14(ctx);
     ctx.require("tty: three typed generations into one file, all keys usable", 3);
+    ctx.require("step that carries the file across a power-of-two size", 3);
     ctx.require("step into existing-keyring", 10);
     ctx.require("step into existing-keyring-over-8KiB", 3);
     ctx.require("step into absent", 1);
